@@ -154,6 +154,9 @@ type C15Contract struct {
 	Deadline   uint64 // ROL
 	Inc        common.Address // sum_func: bound inc contract
 	Holders    []*Actor       // erc20: who may hold tokens
+	Abandon    bool           // OV: never started (becomes terminable 30 days after its start time)
+	Tries      map[common.Address]int // OV: reveal attempts per voter
+	MultiTries int
 }
 
 // C15Action is one generated contract transaction with what the harness knows about it.
@@ -490,6 +493,7 @@ type cand struct {
 	urgent bool
 	noMut  bool
 	gas    string
+	onMut  func() // called when the candidate gets mutated
 }
 
 func (g *C15Gen) rich(min *big.Int) *Actor {
@@ -608,7 +612,8 @@ func (g *C15Gen) newDeploy(kind string) *cand {
 					cd.args = append(cd.args, g.someAddr().Bytes())
 				}
 			}
-			c.Salts, c.Votes = map[common.Address][]byte{}, map[common.Address]byte{}
+			c.Salts, c.Votes, c.Tries = map[common.Address][]byte{}, map[common.Address]byte{}, map[common.Address]int{}
+			c.Abandon = r.Intn(5) == 0
 		case kOL, kROL:
 			if l := g.live(kOV); len(l) > 0 && r.Intn(4) != 0 {
 				c.OV = l[r.Intn(len(l))].Addr
@@ -750,6 +755,10 @@ func (g *C15Gen) candidates(c *C15Contract) []*cand {
 		}
 	case kOV:
 		// life-cycle duties are generated by ovDuties; here only out-of-protocol extras
+		if c15B0(g.cval(c.Addr, "state")) == 0 && now > c.StartTime+30*24*3600+60 && r.Intn(3) != 0 {
+			add("Terminate", "terminate", g.rich(Dna(60)), nil) // abandoned pending voting: anybody may clean it up
+			break
+		}
 		switch r.Intn(7) {
 		case 0:
 			add("Call", "addStake", g.rich(Dna(100)), Dna(int64(r.Range(0, 5))))
@@ -882,6 +891,9 @@ func (g *C15Gen) ovDuties(c *C15Contract) (acts []*cand, multi *C15Multi) {
 	}
 	switch stv {
 	case 0: // pending
+		if c.Abandon {
+			return
+		}
 		if g.nextTime() < c.StartTime+20 && r.Intn(5) != 0 {
 			return
 		}
@@ -927,6 +939,8 @@ func (g *C15Gen) ovDuties(c *C15Contract) (acts []*cand, multi *C15Multi) {
 				}
 				if cd := mk("sendVoteProof", v, pay, h[:]); cd != nil {
 					c.Salts[v.Addr], c.Votes[v.Addr] = salt, vote
+					va := v.Addr
+					cd.onMut = func() { delete(c.Salts, va) }
 					acts = append(acts, cd)
 					n--
 				}
@@ -935,8 +949,9 @@ func (g *C15Gen) ovDuties(c *C15Contract) (acts []*cand, multi *C15Multi) {
 		}
 		// public phase: who still has a hash stored on chain?
 		var pending []*Actor
+		pvd := c15U64(g.cval(c.Addr, "publicVotingDuration"))
 		for _, v := range g.W.Idents {
-			if _, ok := c.Salts[v.Addr]; ok && g.st().GetContractValue(c.Addr, append([]byte("voteHashes"), v.Addr.Bytes()...)) != nil {
+			if _, ok := c.Salts[v.Addr]; ok && dur <= vd+pvd && c.Tries[v.Addr] < 2 && g.st().GetContractValue(c.Addr, append([]byte("voteHashes"), v.Addr.Bytes()...)) != nil {
 				pending = append(pending, v)
 			}
 		}
@@ -959,6 +974,7 @@ func (g *C15Gen) ovDuties(c *C15Contract) (acts []*cand, multi *C15Multi) {
 			if ok {
 				multi = &C15Multi{Class: c15Versioned(kOV, g.up10()) + ":sendVote+finishVoting", C: c}
 				for _, v := range pending {
+					c.Tries[v.Addr]++
 					cd := mk("sendVote", v, nil, []byte{c.Votes[v.Addr]}, c.Salts[v.Addr])
 					cd.noMut = true
 					multi.Acts = append(multi.Acts, g.build(cd))
@@ -983,6 +999,7 @@ func (g *C15Gen) ovDuties(c *C15Contract) (acts []*cand, multi *C15Multi) {
 					salt = r.Bytes(4) // wrong salt: "wrong vote hash"
 				}
 				if cd := mk("sendVote", v, nil, []byte{vote}, salt); cd != nil {
+					c.Tries[v.Addr]++
 					acts = append(acts, cd)
 					n--
 				}
@@ -999,7 +1016,7 @@ func (g *C15Gen) ovDuties(c *C15Contract) (acts []*cand, multi *C15Multi) {
 			if cd := mk("prolongVoting", g.rich(Dna(100)), nil); cd != nil {
 				acts = append(acts, cd)
 				// a prolonged voting starts a new secret phase: everybody may prove again
-				c.Salts, c.Votes = map[common.Address][]byte{}, map[common.Address]byte{}
+				c.Salts, c.Votes, c.Tries = map[common.Address][]byte{}, map[common.Address]byte{}, map[common.Address]int{}
 			}
 		}
 	}
@@ -1187,10 +1204,11 @@ func (g *C15Gen) NextBatch() (acts []*C15Action, multis []*C15Multi) {
 		if cd == nil || cd.from == nil {
 			return
 		}
-		if !cd.noMut && !cd.urgent && r.Intn(100) < g.HostilePct {
+		if !cd.noMut && !cd.urgent && r.Intn(100) < g.HostilePct || cd.urgent && !cd.noMut && r.Intn(100) < 8 {
 			g.mutate(cd)
-		} else if cd.urgent && !cd.noMut && r.Intn(100) < 8 {
-			g.mutate(cd)
+			if cd.onMut != nil {
+				cd.onMut()
+			}
 		}
 		if g.usedS[cd.from.Addr] && !cd.urgent {
 			return
@@ -1218,7 +1236,7 @@ func (g *C15Gen) NextBatch() (acts []*C15Action, multis []*C15Multi) {
 	}
 	// 2. designated class: deposits and the refund that pays them in one block
 	for _, c := range g.live(kROL) {
-		if g.usedC[c] || c15B0(g.cval(c.Addr, "state")) != 4 || g.nextTime() > c.Deadline || r.Intn(3) != 0 {
+		if g.usedC[c] || c.MultiTries >= 2 || c15B0(g.cval(c.Addr, "state")) != 4 || g.nextTime() > c.Deadline || r.Intn(3) != 0 {
 			continue
 		}
 		if g.nextHeight() < c15U64(g.cval(c.Addr, "refundBlock")) {
@@ -1242,6 +1260,7 @@ func (g *C15Gen) NextBatch() (acts []*C15Action, multis []*C15Multi) {
 			}
 		}
 		if len(m.Acts) >= 2 {
+			c.MultiTries++
 			cd := &cand{txKind: "Call", kind: kROL, c: c, from: last, method: "refund", amount: big.NewInt(0), shape: "valid", noMut: true}
 			fa := g.build(cd)
 			fa.Tx = SignedTx(last, fa.Tx.Type, fa.Tx.To, fa.Tx.Amount, fa.Tx.MaxFee, nil, lastNonce+1, fa.Tx.Epoch, fa.Tx.Payload)
